@@ -198,6 +198,13 @@ func (fl *file) list(in []ast.Stmt) []ast.Stmt {
 	out := make([]ast.Stmt, 0, len(in)*2)
 	for _, s := range in {
 		fl.descend(s)
+		if g, ok := s.(*ast.GoStmt); ok && *mode == "stmt" {
+			if blk := fl.managedGo(g); blk != nil {
+				out = append(out, fl.before(s)...)
+				out = append(out, blk)
+				continue
+			}
+		}
 		if !fl.isHookCall(s) {
 			out = append(out, fl.before(s)...)
 		}
@@ -414,6 +421,46 @@ func (fl *file) before(s ast.Stmt) []ast.Stmt {
 		}
 	}
 	return out
+}
+
+// managedGo turns `go func() { body }()` into
+//
+//	{ id := simhook.WillSpawn(); go func() { defer func() { simhook.GoDone(recover()) }(); simhook.GoStart(id); body }() }
+//
+// so that a goroutine the library starts becomes a task of the scheduler. Only literal functions
+// without parameters are rewritten (the arguments of other go statements would have to be evaluated
+// at the go statement); anything else stays a goroutine outside the scheduler.
+func (fl *file) managedGo(g *ast.GoStmt) ast.Stmt {
+	lit, ok := g.Call.Fun.(*ast.FuncLit)
+	if !ok || len(g.Call.Args) != 0 || (lit.Type.Params != nil && len(lit.Type.Params.List) != 0) {
+		return nil
+	}
+	for _, st := range lit.Body.List {
+		if es, ok := st.(*ast.ExprStmt); ok && fl.isHookCall(st) {
+			if sel, ok := es.X.(*ast.CallExpr).Fun.(*ast.SelectorExpr); ok && sel.Sel.Name == "GoStart" {
+				return nil // already managed by hand
+			}
+		}
+	}
+	hook := func(name string, args ...ast.Expr) *ast.CallExpr {
+		return &ast.CallExpr{Fun: &ast.SelectorExpr{X: ast.NewIdent(fl.hookName), Sel: ast.NewIdent(name)}, Args: args}
+	}
+	id := ast.NewIdent("simSpawnID")
+	// defer func() { simhook.GoDone(recover()) }()
+	done := &ast.DeferStmt{Call: &ast.CallExpr{Fun: &ast.FuncLit{
+		Type: &ast.FuncType{Params: &ast.FieldList{}},
+		Body: &ast.BlockStmt{List: []ast.Stmt{&ast.ExprStmt{X: hook("GoDone", &ast.CallExpr{Fun: ast.NewIdent("recover")})}}},
+	}}}
+	body := append([]ast.Stmt{
+		done,
+		&ast.ExprStmt{X: hook("GoStart", id)},
+	}, lit.Body.List...)
+	lit.Body.List = body
+	fl.inserted++
+	return &ast.BlockStmt{List: []ast.Stmt{
+		&ast.AssignStmt{Lhs: []ast.Expr{id}, Tok: token.DEFINE, Rhs: []ast.Expr{hook("WillSpawn")}},
+		g,
+	}}
 }
 
 func (fl *file) yield(site string) ast.Stmt {
